@@ -453,3 +453,54 @@ PLANS["C17"] = {
         exhaustive=False),
     "floor": floor_counters(synthetic_records=17000, real_probes=200),
 }
+
+# ------------------------------------------------------------------------------------------- C04 / C05
+
+
+def c04_steps(tier, seed):
+    q = tier == "quick"
+    return [native("chain-trials", ["w_chain", "--seed", seed, "--reps", 1 if q else 12], timeout=600 if q else 3000)]
+
+
+PLANS["C04"] = {
+    "steps": c04_steps,
+    "evidence": assemble(
+        "fault_enumeration",
+        "one forked child per trial: previous disposition {siginfo handler, plain handler, default, ignore} x signal {USR1, USR2, HUP, "
+        "TERM, URG, CHLD, RTMIN+1/+2/+4/+6} x arrival {a real delivery raised on the registering thread at REG_CLONED / "
+        "REG_BEFORE_FALLBACK / REG_AFTER_FALLBACK / REG_AFTER_SIGACTION / REG_BEFORE_PUBLISH / REG_DONE and at every HL_W_*/HL_B_* "
+        "failpoint of both stores (occurrence 1 = fallback, 2 = publication); bombardment of 3 victim threads with queued signals "
+        "during the first registration, optionally with the window after sigaction() widened; another thread doing the first "
+        "registration of another signal with its own handler}; later phases: another signal taken over, all actions unregistered, "
+        "50 further registrations. Every send carries a unique seq; oracle: each delivered seq is seen by the previous handler exactly "
+        "once (directly from the kernel before the switch, through the library after), before any action, with the same info pointer "
+        "and a context; every dispatch bracket of the signal contains exactly one previous-handler call, first (none for "
+        "default/ignore); process death = violation. A third of the site list per (disposition, signal) in quick (sharded by seed), "
+        "all of it in thorough. distinct = (disposition, std/rt, site#occurrence, bombard, slot-or-fallback path)",
+        ["standard signals coalesce, so exact per-seq accounting under bombardment is limited to real-time signals",
+         "a one-argument handler cannot tell how many arguments it was called with on this ABI; only its call count is checked",
+         "Miri cannot run this (int -> fn pointer transmute, real sigaction)"]),
+    "floor": floor_counters(deliveries_handled_through_the_race_fallback=50, nested_raises_fired=50),
+}
+
+
+def c05_steps(tier, seed):
+    q = tier == "quick"
+    return [native("model-histories", ["w_model", "--seed", seed, "--procs", 16, "--ops", 6000 if q else 150000], timeout=600 if q else 3000),
+            native("restart-under-fire", ["w_reg", "--mode", "stress", "--phase", "none", "--rounds", 10 if q else 100, "--round-ms", 60, "--seed", seed + 9])]
+
+
+PLANS["C05"] = {
+    "steps": c05_steps,
+    "evidence": assemble(
+        "exploration",
+        "cases = operations of random sequential histories over {register, register_sigaction, unregister(live oldest/newest/middle), "
+        "unregister(stale id), unregister(id of another signal), unregister_signal, deliver} on all catchable non-forbidden numbers "
+        "1..64 except 32/33 (4 hot signals 7/8 of the time), one forked process per history; after every operation the touched "
+        "signal is delivered and the ordered list of actions that ran is compared with the model, every 64 operations all "
+        "taken-over signals are delivered and their disposition (dispatcher, SA_RESTART|SA_SIGINFO) is read back from the kernel; "
+        "ids are checked for uniqueness over the whole history; finally a thread blocked in read(2) (confirmed via /proc) receives a "
+        "handled signal and the read must complete with the byte written afterwards. distinct = histories (different seeds)",
+        ["sequential histories (the property is about histories); concurrency of the registry is C01/C02/C18"]),
+    "floor": floor_counters(model_unreg_stale=100, model_unreg_other=100, model_clear=100),
+}
